@@ -319,6 +319,7 @@ namespace pika::detail {
             {
                 cb->is_removed_ = nullptr;
                 cb->callback_finished_executing_.store(true, std::memory_order_release);
+                PIKA_VERIF_POST("stop.finw", cb, 0, 0);
             }
             PIKA_VERIF_POST("stop.fin", cb, is_removed, 0);
         }
